@@ -1342,4 +1342,235 @@ Section Core.
     - pose proof (S_step fuel IV IS) as HS. pose proof (U_step fuel IS) as HU.
       split; [exact HS | split; [exact HU | apply V_from; assumption]].
   Qed.
+
+  (** ** no plan below the root runs on the coordinator *)
+  Lemma owner_not_coord : forall obj nm rty owners s,
+    find_gfield g obj nm = Some (rty, owners) -> In s owners -> s <> coordinator.
+  Proof.
+    intros obj nm rty owners s Hf Hin ->. pose proof (ok_coordinator g Hok obj nm) as H. unfold owns in H. rewrite Hf in H.
+    apply (proj2 (existsb_eqb_In _ _)) in Hin. congruence.
+  Qed.
+
+  Lemma others_not_coord : forall obj svc sels tagged o,
+    mapo (target_of g pick obj svc) sels = Some tagged -> In o (others_of svc tagged) -> o <> coordinator.
+  Proof.
+    intros obj svc sels tagged o Ht Hin. pose proof (others_not_svc _ _ _ Hin) as Hne.
+    unfold others_of in Hin. apply (proj1 (sorted_names_In _ _)) in Hin.
+    apply in_map_iff in Hin as [[n t] [Hto Hin]]. simpl in Hto. subst t. apply filter_In in Hin as [Hin _].
+    assert (Hs : In n (sels_for tagged o)).
+    { unfold sels_for. apply in_map_iff. exists (n, o). split; auto. apply filter_In. split; auto. simpl. apply String.eqb_refl. }
+    destruct (sels_for_in _ _ _ _ _ _ Ht Hs) as [_ Htar].
+    destruct (target_of_spec g pick pick_sound _ _ _ _ _ Htar) as [_ [al [nm [args [ak [dirs [hs [subs [-> Hcase]]]]]]]]].
+    destruct Hcase as [[_ Hx]|[rty [owners [Hf Hown]]]]; [congruence|]. eapply owner_not_coord; eauto.
+  Qed.
+
+  Lemma no_coord_push : forall s p, no_coord (push_step s p) = no_coord p.
+  Proof. intros s [path svc ty sels after]. reflexivity. Qed.
+
+  Lemma forallb_no_coord_push : forall s l, forallb no_coord (map (push_step s) l) = forallb no_coord l.
+  Proof. intros s l. induction l as [|p t IH]; [reflexivity|]. simpl map. cbn [forallb]. rewrite no_coord_push, IH. reflexivity. Qed.
+
+  Lemma plan_no_coord : forall fuel rty sels svc cs afters,
+    plan_ty g pick fuel rty sels svc = Some (cs, afters) -> svc <> coordinator -> forallb no_coord afters = true.
+  Proof.
+    induction fuel as [|fuel IH]; intros rty sels svc cs afters H Hs; [discriminate|].
+    destruct rty as [|obj|u]; [discriminate| |].
+    - destruct (plan_obj_inv g pick fuel obj sels svc cs afters H) as [tagged [planned [oplans [Ht [Hp [Ho Hcase]]]]]].
+      assert (H1 : forallb no_coord (List.concat (map snd planned)) = true).
+      { apply mapo_Forall2 in Hp. clear Hcase Ho. induction Hp as [|n p locs planned Hn _ IHp]; [reflexivity|].
+        simpl. rewrite forallb_app, IHp, andb_true_r.
+        destruct n as [al nm args ak dirs hs subs|]; [|discriminate]. cbn [child_plan] in Hn. destruct hs.
+        - destruct (if String.eqb nm "__typename" then Some RScalar else option_map fst (find_gfield g obj nm)) as [t|]; [|discriminate].
+          destruct (plan_ty g pick fuel t subs svc) as [[cs' cafters]|] eqn:E; [|discriminate]. inversion Hn; subst p. cbn [snd].
+          rewrite forallb_no_coord_push. apply (IH _ _ _ _ _ E Hs).
+        - inversion Hn; subst p. reflexivity. }
+      assert (H2 : forallb no_coord oplans = true).
+      { apply mapo_Forall2 in Ho.
+        assert (Hall : forall o, In o (others_of svc tagged) -> o <> coordinator) by (intros o Hin; eapply others_not_coord; eauto).
+        remember (others_of svc tagged) as others eqn:Eo. clear Eo Hcase H1 Hp.
+        induction Ho as [|o p others oplans Hp' _ IHo]; [reflexivity|].
+        cbn [forallb]. rewrite IHo by (intros o' Ho'; apply Hall; right; exact Ho'). rewrite andb_true_r.
+        unfold other_plan in Hp'. destruct (plan_ty g pick fuel (RObj obj) (sels_for tagged o) o) as [[os oafters]|] eqn:E; [|discriminate].
+        inversion Hp'; subst p. rewrite no_coord_eq.
+        assert (Hoc : o <> coordinator) by (apply Hall; left; reflexivity).
+        apply String.eqb_neq in Hoc as Hoc'. rewrite Hoc'. simpl. apply (IH _ _ _ _ _ E Hoc). }
+      destruct Hcase as [[_ [_ ->]]|[_ [_ [-> _]]]]; [exact H1 | rewrite forallb_app, H1, H2; reflexivity].
+    - simpl in H. destruct (union_members g u) as [ms|]; [|discriminate].
+      match type of H with (if ?c then _ else _) = _ => destruct c; [discriminate|] end.
+      destruct (negb (nodup_str (map n_alias (frags_of sels)))); [discriminate|].
+      destruct (negb (forallb (fun n => existsb (String.eqb (n_alias n)) ms) (frags_of sels))); [discriminate|].
+      fold (frag_plan fuel svc) in H.
+      destruct (mapo (frag_plan fuel svc) (frags_of sels)) as [planned|] eqn:Ep; [|discriminate].
+      inversion H; subst. clear H. apply mapo_Forall2 in Ep.
+      induction Ep as [|n p l planned Hn _ IHp]; [reflexivity|].
+      simpl. rewrite forallb_app, IHp, andb_true_r.
+      destruct n as [|on dirs body]; [discriminate|]. cbn [frag_plan] in Hn.
+      destruct (plan_ty g pick fuel (RObj on) body svc) as [[cs' cafters]|] eqn:E; [|discriminate]. inversion Hn; subst p. cbn [snd].
+      rewrite forallb_no_coord_push. apply (IH _ _ _ _ _ E Hs).
+  Qed.
+
+  (** ** the root: the coordinator keeps the __typename selections and merges the answers of the services *)
+  Definition tn_entries (ty : string) (l : list node) : list (string * json) := map (fun n => (n_alias n, JStr ty)) l.
+
+  Lemma coord_locs : forall sels tagged n,
+    mapo (target_of g pick "Query" coordinator) sels = Some tagged ->
+    forallb (node_ok g (RObj "Query")) sels = true -> In n (sels_for tagged coordinator) ->
+    exists al args ak, n = NField al "__typename" args ak [] false [].
+  Proof.
+    intros sels tagged n Ht Hnok Hn. destruct (sels_for_in _ _ _ _ _ _ Ht Hn) as [Hin Htar].
+    destruct (target_of_spec g pick pick_sound _ _ _ _ _ Htar) as [_ [al [nm [args [ak [dirs [hs [subs [-> Hcase]]]]]]]]].
+    destruct Hcase as [[-> _]|[rty [owners [Hf Hown]]]]; [|exfalso; eapply owner_not_coord; eauto].
+    eapply forallb_forall in Hnok; [|exact Hin]. cbn [node_ok] in Hnok.
+    apply andb_prop in Hnok as [Hno Hno3]. apply andb_prop in Hno as [_ Hd]. destruct dirs; [|discriminate].
+    rewrite String.eqb_refl in Hno3. apply andb_prop in Hno3 as [Hhs Hsubs]. apply negb_true_iff in Hhs. subst hs.
+    destruct subs; [|discriminate]. exists al, args, ak. reflexivity.
+  Qed.
+
+  Lemma coord_planned : forall fuel locs planned,
+    (forall n, In n locs -> exists al args ak, n = NField al "__typename" args ak [] false []) ->
+    Forall2 (fun n p => child_plan g pick fuel "Query" coordinator n = Some p) locs planned ->
+    map fst planned = locs /\ List.concat (map snd planned) = [] /\
+    root_typenames "Query" locs = tn_entries "Query" locs.
+  Proof.
+    intros fuel locs planned Hall HF. induction HF as [|n p locs planned Hn _ IH]; [auto|].
+    destruct IH as [I1 [I2 I3]]; [intros m Hm; apply Hall; right; exact Hm|].
+    destruct (Hall n (or_introl eq_refl)) as [al [args [ak ->]]]. cbn [child_plan] in Hn. inversion Hn; subst p.
+    simpl. rewrite I1, I2. split; [reflexivity|]. split; [reflexivity|].
+    unfold root_typenames in *. cbn [flat_map]. rewrite I3. reflexivity.
+  Qed.
+
+  Lemma key_kv_query : key_kv K "Query" 0%Z = [].
+  Proof. destruct fed_ok2_parts as [_ [_ HK]]. unfold key_kv. rewrite HK. reflexivity. Qed.
+
+  Lemma root_others : forall fuel, S_stmt w g pick fuel -> forall sels tagged,
+    mapo (target_of g pick "Query" coordinator) sels = Some tagged -> flat_ok g "Query" sels = true ->
+    forall others oplans, Forall2 (fun o p => other_plan g pick fuel "Query" tagged o = Some p) others oplans ->
+    NoDup others -> (forall o, In o others -> o <> coordinator) ->
+    forall L, (forall o n, In o others -> In n (sels_for tagged o) -> lookup (n_alias n) L = None) ->
+    exists exts, exec_go w g true oplans [JObj L] = Some [JObj (L ++ List.concat exts)] /\
+                 Forall2 (fun o kvs => post w g "Query" 0%Z (sels_for tagged o) false kvs) others exts.
+  Proof.
+    intros fuel HS sels tagged Ht Hflat others oplans HF.
+    assert (Hnds : NoDup (map n_alias sels)).
+    { unfold flat_ok in Hflat. apply andb_prop in Hflat as [H1 _]. apply nodup_str_NoDup; exact H1. }
+    induction HF as [|o p others oplans Hp _ IH]; intros Hnd Hnc L Hfresh.
+    - exists []. cbn [List.concat]. rewrite app_nil_r. split; [reflexivity | constructor].
+    - inversion Hnd as [|? ? Hno Hnd']; subst.
+      unfold other_plan in Hp.
+      destruct (plan_ty g pick fuel (RObj "Query") (sels_for tagged o) o) as [[os oafters]|] eqn:Epl; [|discriminate].
+      inversion Hp; subst p.
+      pose proof (flat_ok_sels_for _ _ _ _ o Ht Hflat) as Hflat_o.
+      pose proof (sels_for_local _ _ _ _ o Ht) as Hloc.
+      assert (Hpre : pre_ok g [] "Query" 0%Z (sels_for tagged o)).
+      { split; [exists []; rewrite key_kv_query; reflexivity|]. split; [intros k [] | constructor]. }
+      destruct (HS "Query" (sels_for tagged o) o os oafters Epl Hflat_o (or_intror Hloc) 0%Z [] Hpre) as [kvs_o [fed [Hrun [Hpost Hfedf]]]].
+      specialize (Hfedf Hloc). subst fed. cbn [app] in Hrun.
+      assert (Hoc : o <> coordinator) by (apply Hnc; left; reflexivity).
+      assert (Hex : exec_plan w g true (Plan [] o "Query" os oafters) None = Some [JObj kvs_o]).
+      { apply exec_root_plan.
+        - rewrite no_coord_eq. apply String.eqb_neq in Hoc as Hoc'. rewrite Hoc'. simpl. apply (plan_no_coord _ _ _ _ _ _ Epl Hoc).
+        - reflexivity.
+        - cbn [exec1]. rewrite eval_obj_eq, key_kv_query. exact Hrun. }
+      change (exec_go w g true (Plan [] o "Query" os oafters :: oplans) [JObj L]) with
+        (match stitch true (exec_plan w g true (Plan [] o "Query" os oafters)) true [] [JObj L] with
+         | Some cur' => exec_go w g true oplans cur'
+         | None => None
+         end).
+      unfold stitch. rewrite Hex.
+      destruct Hpost as [Hndk [Hkeys Hvals]].
+      assert (Hkeys_o : forall k, In k (map fst kvs_o) -> lookup k L = None).
+      { intros k Hk. apply Hkeys in Hk as [Hk|[Hx _]]; [|discriminate]. apply in_map_iff in Hk as [n [Hn Hin]]. subst k.
+        apply (Hfresh o n (or_introl eq_refl) Hin). }
+      rewrite merge_result_ok.
+      + assert (Hfp : fresh_part L kvs_o = kvs_o).
+        { rewrite <- (fresh_part_keyed L "Query" 0%Z kvs_o) at 2; [rewrite key_kv_query; reflexivity | | exact Hkeys_o].
+          destruct fed_ok2_parts as [_ [_ HK]]. rewrite HK. discriminate. }
+        rewrite Hfp.
+        destruct (IH Hnd' (fun o' Ho' => Hnc o' (or_intror Ho')) (L ++ kvs_o)) as [exts [Hrun2 HF2]].
+        * intros o2 n Ho2 Hn. rewrite lookup_app, (Hfresh o2 n (or_intror Ho2) Hn).
+          apply lookup_none_notin. intros Hin. apply Hkeys in Hin as [Hin|[Hx _]]; [|discriminate].
+          apply in_map_iff in Hin as [m [Hm Hin]].
+          assert (Hne : o <> o2) by (intros ->; contradiction).
+          apply (groups_disjoint _ _ _ _ _ _ _ _ Ht Hnds Hne Hin Hn). exact Hm.
+        * exists (kvs_o :: exts). split; [|constructor; [split; [exact Hndk | split; [exact Hkeys | exact Hvals]] | exact HF2]].
+          rewrite Hrun2. simpl. rewrite <- app_assoc. reflexivity.
+      + split; [exact Hndk|]. intros k v Hin. left. apply Hkeys_o. apply (in_map fst _ _ Hin).
+  Qed.
+
+  Lemma root_typenames_app : forall ty a b, root_typenames ty (a ++ b) = root_typenames ty a ++ root_typenames ty b.
+  Proof. intros. unfold root_typenames. apply flat_map_app. Qed.
+
+  (** planner + executor on a normalised query: the gateway's (undeleted) answer is similar to the combined
+      server's answer to the same query with __typename asked on every union selection *)
+  Theorem root_sem : forall fuel flat p,
+    plan_root g pick fuel flat = Some p -> flat_ok g "Query" flat = true ->
+    exists L, exec_plan w g true p None = Some [JObj L] /\
+              simv (JObj L) (eval_obj w K "Query" 0%Z (map annot flat)).
+  Proof.
+    intros fuel flat p Hroot Hflat. unfold plan_root in Hroot.
+    destruct (plan_ty g pick fuel (RObj "Query") flat coordinator) as [[ss afters]|] eqn:Hpl; [|discriminate].
+    inversion Hroot; subst p. clear Hroot. destruct fuel as [|fuel]; [discriminate|].
+    destruct (plan_sem fuel) as [HS _].
+    destruct (plan_obj_inv g pick fuel "Query" flat coordinator ss afters Hpl) as [tagged [planned [oplans [Ht [Hp [Ho Hcase]]]]]].
+    pose proof Hflat as Hflat'. unfold flat_ok in Hflat'. apply andb_prop in Hflat' as [Hnd0 Hnok].
+    rewrite (filter_included_all "Query" flat Hnok) in Ht.
+    assert (Hnds : NoDup (map n_alias flat)) by (apply nodup_str_NoDup; exact Hnd0).
+    pose proof (mapo_Forall2 _ _ _ Hp) as Fp. pose proof (mapo_Forall2 _ _ _ Ho) as Fo.
+    set (locs := sels_for tagged coordinator) in *. set (others := others_of coordinator tagged) in *.
+    assert (Hlocs : forall n, In n locs -> exists al args ak, n = NField al "__typename" args ak [] false [])
+      by (intros n Hn; eapply coord_locs; eauto).
+    destruct (coord_planned fuel locs planned Hlocs Fp) as [Hfst [Hsnd Hrt]].
+    assert (Hshape : afters = oplans /\ root_typenames "Query" ss = tn_entries "Query" locs).
+    { destruct Hcase as [[Hoth [-> ->]]|[Hoth [_ [-> Hfedsel]]]].
+      - rewrite Hoth in Fo. inversion Fo; subst. rewrite Hsnd, Hfst. auto.
+      - rewrite Hsnd. split; [reflexivity|]. destruct Hfedsel as [[_ ->]|[_ ->]]; rewrite ?root_typenames_app, Hfst, Hrt; [reflexivity|].
+        rewrite key_selection_eq. cbn. apply app_nil_r. }
+    destruct Hshape as [-> Hss].
+    rewrite exec_plan_eq, String.eqb_refl, Hss.
+    assert (Hk0 : map fst (tn_entries "Query" locs) = map n_alias locs) by (unfold tn_entries; rewrite map_map; reflexivity).
+    destruct (root_others fuel HS flat tagged Ht Hflat others oplans Fo (sorted_names_NoDup _)
+                (fun o Hin => others_not_coord _ _ _ _ _ Ht Hin) (tn_entries "Query" locs)) as [exts [Hrun HF2]].
+    { intros o n Ho' Hn. apply lookup_none_notin. rewrite Hk0. intros Hin. apply in_map_iff in Hin as [m [Hm Hin]].
+      pose proof (others_not_svc _ _ _ Ho') as Hne.
+      apply (groups_disjoint _ _ _ _ _ _ _ _ Ht Hnds Hne Hn Hin). congruence. }
+    rewrite Hrun. eexists. split; [reflexivity|].
+    destruct (concat_exts_spec _ _ _ _ 0%Z _ _ Ht Hnds (sorted_names_NoDup _) HF2) as [E1 [E2 E3]].
+    assert (Hgroup : forall n, In n flat -> In n locs \/ exists o, In o others /\ In n (sels_for tagged o)).
+    { intros n Hn. destruct (in_sels_tagged _ _ _ _ _ Ht Hn) as [t [Hin Hs]].
+      destruct (string_dec t coordinator) as [->|Hne]; [left; exact Hs | right; exists t; split; [eapply in_others; eauto | exact Hs]]. }
+    pose proof (sels_for_nodup _ _ _ _ coordinator Ht Hnds) as Hlocs_nd. fold locs in Hlocs_nd.
+    assert (Hpost : post w g "Query" 0%Z flat false (tn_entries "Query" locs ++ List.concat exts)).
+    { split; [|split].
+      - rewrite map_app. apply NoDup_app_intro; [rewrite Hk0; exact Hlocs_nd | exact E1|].
+        intros k Hk Hk2. rewrite Hk0 in Hk. apply in_map_iff in Hk as [m [Hm Hmin]].
+        apply E2 in Hk2 as [o [n [Ho' [Hn Hkn]]]]. pose proof (others_not_svc _ _ _ Ho') as Hne.
+        apply (groups_disjoint _ _ _ _ _ _ _ _ Ht Hnds Hne Hn Hmin). congruence.
+      - intros k. rewrite map_app, in_app_iff, Hk0, E2. split.
+        + intros [Hin|[o [n [Ho' [Hn Hk]]]]].
+          * left. apply in_map_iff in Hin as [n [Hn Hin]]. subst k. apply in_map. apply (sels_for_in _ _ _ _ _ _ Ht Hin).
+          * left. subst k. apply in_map. apply (sels_for_in _ _ _ _ _ _ Ht Hn).
+        + intros [Hin|[Hx _]]; [|discriminate].
+          apply in_map_iff in Hin as [n [Hn Hin]]. subst k. destruct (Hgroup n Hin) as [Hl|[o [Ho' Hs]]].
+          * left. apply in_map; exact Hl.
+          * right. exists o, n. auto.
+      - intros n Hn. destruct (Hgroup n Hn) as [Hl|[o [Ho' Hs]]].
+        + destruct (Hlocs n Hl) as [al [args [ak ->]]]. exists (JStr "Query"). split; [|rewrite nval_annot; unfold fval_gen; rewrite String.eqb_refl; constructor].
+          rewrite lookup_app.
+          assert (Hl1 : lookup al (tn_entries "Query" locs) = Some (JStr "Query")).
+          { clear -Hl. induction locs as [|x r IHl]; [contradiction|]. simpl. destruct Hl as [->|Hl].
+            - simpl. rewrite String.eqb_refl. reflexivity.
+            - destruct (String.eqb al (n_alias x)); [reflexivity | apply IHl; exact Hl]. }
+          cbn [n_alias]. rewrite Hl1. reflexivity.
+        + destruct (E3 o n Ho' Hs) as [v [Hlk Hsv]]. exists v. split; auto. rewrite lookup_app.
+          assert (H1 : lookup (n_alias n) (tn_entries "Query" locs) = None).
+          { apply lookup_none_notin. rewrite Hk0. intros Hin. apply in_map_iff in Hin as [m [Hm Hin]].
+            pose proof (others_not_svc _ _ _ Ho') as Hne.
+            apply (groups_disjoint _ _ _ _ _ _ _ _ Ht Hnds Hne Hs Hin). congruence. }
+          rewrite H1. exact Hlk. }
+    rewrite eval_obj_eq, key_kv_query.
+    apply (post_simv w g "Query" 0%Z flat false _ [] Hpost (all_fields_ok g _ _ Hnok) Hnds).
+    - intros n Hn. apply (node_alias_facts _ _ _ Hnok Hn).
+    - intros k [].
+    - constructor.
+  Qed.
 End Core.
